@@ -5,7 +5,7 @@ import common
 from common import show_list
 
 LEVEL = "proof"
-LEAN_PROPS = ["FastTicc.Props.C11"]
+LEAN_PROPS = ["FastTicc.Props.C11", "FastTicc.Props.OptPhase"]
 LEAN_HELPERS = ["FastTicc.Proofs.Index"]
 RULE = ("exhaustive enumeration: every matrix size n <= Nmax for the compression maps "
         "(every (r,c) pair), every (N,W) with N<=10, W<=14 for the class maps (every class); "
